@@ -2,7 +2,7 @@
 
 Predicate-free location paths of up to three steps - abbreviated (a, *, @x, text(), node(), ., ..) and with explicit axes (ancestor, ancestor-or-self, descendant,
 descendant-or-self, following, following-sibling, preceding, preceding-sibling, parent, self, child, attribute), separated by / and //, relative, rooted and //-rooted -
-are compiled by the interpreted expression parser into a real op-code map (as in C09-R9) and evaluated by the interpreted XPath::step with the twelve axis functions and
+- and steps with literal position predicates such as a[1], ancestor::*[2], *[2][1] - are compiled by the interpreted expression parser into a real op-code map (as in C09-R9) and evaluated by the interpreted XPath::step with the twelve axis functions and
 NodeTester, from every node of a small tree.  The node lists are modelled by their contract (ordered merge, swap, reverse, flags: C12-R5..R7 decide the implementation).
 The result must be the node-set XPath 1.0 2 defines, delivered in document order."""
 import itertools
@@ -90,6 +90,14 @@ class PWorld(MWorld):
                 return 0 if tgt.kind == 'doc' else self.doc
             if n == 'getDocumentElement' and isinstance(tgt, TNode):
                 return next((x for x in tgt.children if x.kind == 'elem'), 0)
+        if k == 'Call' and n == 'toDouble':
+            v = m.ev(c['args'][0])
+            try:
+                return float(v)
+            except (TypeError, ValueError):
+                return float('nan')
+        if k == 'Ctor' and 'PushAndPop' in cls:
+            return 'GUARD'
         return super().hook(m, c)
 
 
@@ -100,8 +108,26 @@ AXIS_STEPS = [[ax, '::', t] for ax in ('ancestor', 'ancestor-or-self', 'descenda
               ['ancestor-or-self', '::', 'node', '(', ')'], ['descendant-or-self', '::', 'node', '(', ')']]
 
 
+INDEXED = [['a', '[', '1', ']'], ['*', '[', '2', ']'], ['node', '(', ')', '[', '3', ']'], ['ancestor', '::', '*', '[', '1', ']'], ['ancestor', '::', '*', '[', '2', ']'],
+           ['preceding-sibling', '::', '*', '[', '1', ']'], ['following-sibling', '::', 'node', '(', ')', '[', '2', ']'], ['preceding', '::', '*', '[', '2', ']'],
+           ['following', '::', '*', '[', '1', ']'], ['descendant', '::', 'b', '[', '2', ']'], ['@', '*', '[', '2', ']'], ['a', '[', '5', ']'], ['*', '[', '1', ']', '[', '1', ']'],
+           ['*', '[', '2', ']', '[', '1', ']'], ['*', '[', '1', ']', '[', '2', ']']]
+REVERSE = ('ancestor', 'ancestor-or-self', 'preceding', 'preceding-sibling')
+
+
+def split_index(step):
+    """step tokens -> (step without predicates, [indexes])"""
+    idx = []
+    st = list(step)
+    while len(st) >= 3 and st[-1] == ']' and st[-3] == '[':
+        idx.insert(0, int(st[-2]))
+        st = st[:-3]
+    return st, idx
+
+
 def step_spec(step):
     """(axis, test) of a step"""
+    step = split_index(step)[0]
     if step == ['.']:
         return 'self', 'node'
     if step == ['..']:
@@ -147,10 +173,15 @@ def ref_eval(lead, steps, ctx, doc, allnodes):
             out = nxt
         first = False
         axis, test = step_spec(st)
+        idx = split_index(st)[1]
         nxt = []
         for n in out:
-            for x in spec_axis(axis, n, allnodes):
-                if test_ok(axis, test, x) and x not in nxt:
+            cand = [x for x in spec_axis(axis, n, allnodes) if test_ok(axis, test, x)]
+            cand.sort(key=lambda x: x.order, reverse=axis in REVERSE)       # proximity order of the axis
+            for i in idx:
+                cand = [cand[i - 1]] if 1 <= i <= len(cand) else []
+            for x in cand:
+                if x not in nxt:
                     nxt.append(x)
         out = nxt
     return sorted(out, key=lambda x: x.order)
@@ -165,6 +196,12 @@ def paths(tier):
             if lead and st in (['.'], ['..']):
                 continue
             out.append((lead, [(None, st)]))
+    for st in INDEXED:
+        out.append(('', [(None, st)]))
+        for s1 in (['*'], ['a'], ['node', '(', ')'], ['descendant', '::', '*']):
+            for sep in ('/', '//'):
+                out.append(('', [(None, s1), (sep, st)]))
+                out.append(('//', [(None, st), (sep, s1)]))
     two_l = ABBREV[:7] + AXIS_STEPS[::3]
     two_r = ABBREV + AXIS_STEPS[::2]
     for s1, s2 in itertools.product(two_l, two_r):
@@ -213,7 +250,7 @@ def run_rule(res, facts, tier):
     seen = set()
     allpaths = paths(tier)
     if tier != 'thorough':
-        allpaths = [p for i, p in enumerate(allpaths) if len(p[1]) == 1 or i % 6 == 0]
+        allpaths = [p for i, p in enumerate(allpaths) if len(p[1]) == 1 or i % 6 == 0 or any('[' in st for _, st in p[1])]
     for lead, steps in allpaths:
         toks = tokens_of(lead, steps)
         if tuple(toks) in seen:
@@ -262,7 +299,7 @@ def run_rule(res, facts, tier):
                 r.instances += 1
                 continue
             r.instances += 1
-            shape = ' '.join('%s%s' % (sp or '', step_spec(st)[0]) for sp, st in steps)
+            shape = ' '.join('%s%s%s' % (sp or '', step_spec(st)[0], '[n]' * len(split_index(st)[1])) for sp, st in steps)
             key = (lead or 'rel', shape)
             if key not in found:
                 found[key] = (ptxt, ctx, got, want, flag)
